@@ -17,6 +17,11 @@ the hand-written list of the Go types the harness registers (harness/sut/wire) w
                 them with the real code, mutates the encodings (bit flips, truncation, maximised length
                 fields, garbage tails) and decodes those; every observation is one NDJSON record and TLC
                 judges every record with Enc/Dec of Wire.tla (WireTrace).
+  Wire:deep-schemas  (thorough tier) TLC -simulate builds random schemas of nesting depth 3 (WireSim) and checks
+                the model's properties on them (model only: no Go types exist for these).
+
+units(ctx) = all of it under the work id W1; units_for(ctx, "C01" | "C02" | "C03") = the same units, each reporting
+only the classes of disagreement that belong to that property (see DEC_PROPS / ENC_PROPS).
 """
 import copy
 import json
@@ -127,7 +132,7 @@ DEC_PROPS = {
 }
 ENC_PROPS = {
     "panic": lambda valid: {"C01"},
-    "accepts-invalid": lambda valid: {"C03"},
+    "accepts-invalid": lambda valid: {"C01", "C03"},     # bytes for a value the format cannot express: no round trip
     "rejects-valid": lambda valid: {"C01", "C03"},
     "wrong-bytes": lambda valid: {"C03"},
     "order-dependent": lambda valid: {"C01"},
@@ -370,7 +375,7 @@ class Records(Base):
     def run(self, ctx):
         full, cat = prepare(ctx)
         kinds = {c["name"]: c["s"]["k"] for c in cat}
-        n = 50000 if ctx.thorough else 2500
+        n = 50000 if ctx.thorough else 4000
         prefix = os.path.join(ctx.out, "rec")
         parts = PAR * (4 if ctx.thorough else 1)
         p = run_h(ctx, ["w1-record", "-cat", full, "-seed", str(ctx.seed), "-n", str(n), "-out", prefix, "-parts", str(parts)], timeout=3000)
@@ -477,9 +482,10 @@ def validate_records(ctx, files, full, timeout=3000):
 ASSUMPTIONS = [
     "binary serix only (W1); the JSON/map form, the stream helpers, the Deserializer primitives and "
     "SerializableOrderedMap are W2's",
-    "types: the 61 catalogue types of spec/wire/catalogue.json (every schema constructor, prefix widths 1/2/4/8, "
-    "all array rules); shapes outside the catalogue are not exercised",
-    "byte strings: exhaustive up to length 6 (thorough 7) over {0,1,2,255} per type, beyond that seeded mutations of "
+    "types: the 73 catalogue types of spec/wire/catalogue.json (every schema constructor, prefix widths 1/2/4/8, "
+    "all array rules); shapes outside the catalogue are not exercised on the real code",
+    "byte strings: exhaustive up to length 6 over {0,1,2,255} (thorough: {0,1,2,128,255}) per type - in the quick tier "
+    "strings that extend a complete encoding by more than one byte are pruned (PrefixOnly) -, beyond that seeded mutations of "
     "valid encodings; values: small-scope enumeration + seeded random values",
     "allocation is measured (runtime.MemStats.TotalAlloc per Decode call <= 64 KiB + 16 B per input byte), not proved",
     "time stamps outside [0, MaxInt64] ns are saturated by documented design and excluded; custom Serializable "
